@@ -14,7 +14,8 @@ LEVEL = 'exploration'
 TECHNIQUE = ('differential property-based testing (Hypothesis): each generated program is rendered by the real CLI in all '
              'four pretty-print formats and as binary image (twice, fills 0x00 and 0xFF, so emitted bytes and gaps are '
              'distinguishable); independent decoders turn every format into an address->byte map that must equal the '
-             'map read from the image; the listing rows are additionally compared with the reference per-line layout')
+             'map read from the image; the listing rows (statement bytes and the address column of every placed line) are additionally compared with the '
+             'reference per-line layout')
 RULE = ('Programs with gaps (origins, alignments, zone switches, predefined blocks), lines longer than the 6 bytes of a '
         'listing row, included files, muted regions and zero-length lines, over address widths 8..32. Non-trivial = the '
         'program is accepted and has at least one of: a gap, a line longer than 6 bytes, a muted region, an include. '
@@ -111,6 +112,34 @@ def execute(case, ctx):
                 d['statements_missing'] = [(x[0], x[1].hex()) for x in (want - have)][:10]
                 d['statements_extra'] = [(x[0], x[1].hex()) for x in (have - want)][:10]
                 findings.append(Finding('C16/listing/statement-rows-differ-from-layout', d))
+            else:
+                # address column: every line the reference layout placed appears exactly once, at that address
+                where = {}
+
+                def number(its, fname):
+                    for n, it in enumerate(its, 1):
+                        where[id(it)] = (fname, n)
+                        if it['t'] == 'include':
+                            number(it['items'], it['file'])
+                number(case['items'], 'main.asm')
+                got_rows = collections.Counter()
+                addr_of = {}
+                for f_, n_, a_, _b in rows:
+                    key = (f_.split('/')[-1], n_)
+                    got_rows[key] += 1
+                    addr_of.setdefault(key, []).append(a_)
+                bad = []
+                for ln in lay.lines:
+                    key = where.get(id(ln['item']))
+                    if key is None:
+                        continue
+                    if got_rows.get(key, 0) != 1:
+                        bad.append((key, 'rows=%d' % got_rows.get(key, 0)))
+                    elif addr_of[key][0] != ln['addr']:
+                        bad.append((key, 'listing address %r, layout address %d' % (addr_of[key][0], ln['addr'])))
+                if bad:
+                    d['address_column_mismatches'] = bad[:10]
+                    findings.append(Finding('C16/listing/address-column-differs-from-layout', d))
     gaps = any(k not in ref for k in range(min(ref), max(ref) + 1)) if ref else False
     long_line = any(ln['size'] > 6 for ln in lay.lines)
     nt = gaps or long_line or 'muted' in feats or 'include' in feats
